@@ -369,6 +369,10 @@ def encoding_faithful(ctx, py: PyRepo):
                  'save', 'load', 'publish_axiom', 'publish_claim'):
         c02.method_row(ctx, w, meth, arms, py_ops, dec)
     c04.memory_and_load(ctx, py, w, arms)
+    # what gets published is interpreter.pattern(<declared pattern>): the walk that rebuilds a pattern through interpreter calls must
+    # hand every sub-pattern on in place and under its own key (shared with C08) - a permuted or re-keyed map publishes another pattern
+    from . import c08
+    c08.walk_order(ctx, py, w)
 
 
 def run(ctx):
